@@ -14,22 +14,22 @@ package etcd
 //@ ghost shim_reads Int
 //@ ghost forwarded Int
 
-//@ func service.PeerService.IsLeader() (result)
+//@ func @github.com/kubewharf/kubebrain/pkg/server/service.PeerService.IsLeader() (result)
 //@   assumed
 //@   modifies ghost.leader_checked
 //@   ensures [flag] leader_checked == result
-//@ func service.PeerService.SyncReadRevision() (err)
+//@ func @github.com/kubewharf/kubebrain/pkg/server/service.PeerService.SyncReadRevision() (err)
 //@   assumed
 //@   modifies ghost.synced
 //@   ensures [flag] synced == (err == nil)
-//@ func service.PeerService.EtcdProxyEnabled() (result)
+//@ func @github.com/kubewharf/kubebrain/pkg/server/service.PeerService.EtcdProxyEnabled() (result)
 //@   assumed
 //@   pure
-//@ func service.PeerService.Txn(ctx, txn) (resp, err)
+//@ func @github.com/kubewharf/kubebrain/pkg/server/service.PeerService.Txn(ctx, txn) (resp, err)
 //@   assumed
 //@   modifies ghost.forwarded
 //@   ensures [forwarded] forwarded == old(forwarded)+1
-//@ func service.PeerService.Watch(ctx) (result, err)
+//@ func @github.com/kubewharf/kubebrain/pkg/server/service.PeerService.Watch(ctx) (result, err)
 //@   assumed
 //@   modifies ghost.forwarded
 //@   ensures [forwarded] forwarded == old(forwarded)+1
@@ -113,3 +113,71 @@ package etcd
 //@ func isSingleKey(rangeEnd) (result)
 //@   props C16
 //@   ensures [def] result == (len(rangeEnd) == 0)
+
+// ---- C16 / C18: the handlers ----
+//@ pred wf_rpc(s) = s != nil && s.backend != nil && s.peers != nil && s.metricCli != nil
+
+//@ pred shape_compact(txn) = len(txn.Compare) == 1 && txn.Compare[0].Target == etcdserverpb.Compare_VERSION && txn.Compare[0].Result == etcdserverpb.Compare_EQUAL && len(txn.Success) == 1 && put_of(txn.Success[0]) != nil && len(txn.Failure) == 1 && get_of(txn.Failure[0]) != nil
+
+//@ func isCompact(txn) (result)
+//@   props C16
+//@   requires wire_txn(txn)
+//@   ensures [sound] result ==> shape_compact(txn)
+
+// the compaction transaction of the apiserver is answered locally and never reaches the backend
+//@ func (*RPCServer).compact() (resp, err)
+//@   props C16
+//@   ensures [answered-not-executed] resp != nil && !resp.Succeeded && err == nil
+
+// Txn: a follower applies nothing (rejects or forwards); the leader makes exactly one backend call
+// for a supported shape; anything else is rejected with an error and reaches neither the
+// backend nor the proxy
+//@ func (*RPCServer).Txn(ctx, txn) (resp, err)
+//@   props C16 C18
+//@   nosafety
+//@   requires wf_rpc(s) && wire_txn(txn) && !leader_checked
+//@   modifies ghost.leader_checked ghost.shim_writes ghost.forwarded
+//@   ensures [follower-writes-nothing] !leader_checked ==> shim_writes == old(shim_writes)
+//@   ensures [at-most-one-call] shim_writes == old(shim_writes) || shim_writes == old(shim_writes)+1
+//@   ensures [unsupported-shape-rejected] leader_checked && !shape_create(txn) && !shape_update(txn) && !shape_delete_guarded(txn) && !shape_delete_unguarded(txn) && !shape_compact(txn) ==> shim_writes == old(shim_writes) && resp == nil && err != nil
+//@   ensures [supported-shape-executed-once] leader_checked && (shape_create(txn) || shape_update(txn) || shape_delete_guarded(txn) || shape_delete_unguarded(txn)) && shim_writes == old(shim_writes) ==> false
+
+//@ func (*RPCServer).Range(ctx, r) (resp, err)
+//@   props C18
+//@   nosafety
+//@   requires wf_rpc(s) && r != nil && !synced
+//@   modifies ghost.synced ghost.shim_reads
+//@   ensures [failed-sync-reads-nothing] !synced ==> shim_reads == old(shim_reads) && err != nil
+//@   ensures [one-read] synced ==> shim_reads == old(shim_reads)+1
+
+//@ func BackendShim.Watch(ctx, key, revision) (ch, err)
+//@   assumed
+//@   requires [leader-only] leader_checked
+//@   modifies ghost.shim_writes
+//@   ensures [counted] shim_writes == old(shim_writes)+1
+//@ func BackendShim.ListByStream(ctx, startKey, endKey, revision) (ch, err)
+//@   assumed
+//@   requires [after-sync] synced
+//@   modifies ghost.shim_reads
+//@   ensures [counted] shim_reads == old(shim_reads)+1
+//@ func BackendShim.GetResourceLock() (result)
+//@   assumed
+//@   pure
+
+//@ pred wf_watcher(w) = w != nil && w.backend != nil && w.grpcServer != nil && w.grpcServer.peers != nil && w.metricCli != nil && w.watchServer != nil && w.watches != nil
+
+// a watch is served from the local event history only by the leader; otherwise it is forwarded
+//@ func (*watcher).Watch(ctx, id, r)
+//@   props C18
+//@   nosafety
+//@   requires wf_watcher(w) && r != nil && !leader_checked
+//@   modifies inferred:(*watcher).Watch
+//@   ensures [follower-serves-no-watch] !leader_checked ==> shim_writes == old(shim_writes)
+
+// a streamed range is read only after the leader's revision has been adopted
+//@ func (*watcher).List(ctx, id, r)
+//@   props C18
+//@   nosafety
+//@   requires wf_watcher(w) && r != nil && !synced
+//@   modifies inferred:(*watcher).List
+//@   ensures [failed-sync-reads-nothing] !synced ==> shim_reads == old(shim_reads)
